@@ -1,5 +1,5 @@
-(** Invariants of the catalog model (Model/Catalog.v) behind C16: as long as every create/write key
-    passes [key_guard], (1) the file system only holds proper entry names, (2) every path stored in
+(** Invariants of the catalog model (Model/Catalog.v) behind C16, for ALL keys (AddTimeBucket validates the
+    items of the key): (1) the file system only holds proper entry names, (2) every path stored in
     the in-memory catalog is rooted and lexically inside the root, (3) every mutating system call of
     the run is lexically inside the root. *)
 From Coq Require Import ZArith NArith List Bool Lia.
@@ -447,6 +447,13 @@ Proof.
       eapply IH; eauto.
 Qed.
 
+Lemma items_ok_depth items : forallb item_ok items = true -> forall d, depth_ok items d = true.
+Proof.
+  induction items as [|c r IH]; intros H d; [reflexivity|].
+  cbn in H. apply andb_true_iff in H as [H1 H2]. unfold item_ok in H1. apply negb_true_iff in H1.
+  apply orb_false_iff in H1 as [H1 Hdd]. cbn [depth_ok]. rewrite H1, Hdd. apply IH; auto.
+Qed.
+
 Lemma depth_ok_hd items : depth_ok items 0 = true -> depth_ok [hd [] items] 0 = true.
 Proof.
   destruct items as [|c r]; [reflexivity|]. intros H. rewrite depth_ok_cons in H.
@@ -463,11 +470,13 @@ Proof.
 Qed.
 
 Lemma add_time_bucket_ok w c k fpath tag w' c' o :
-  w_ok w -> cat_ok c -> depth_ok (key_items k) 0 = true -> inroot fpath ->
+  w_ok w -> cat_ok c -> (forallb item_ok (key_items k) = true -> inroot fpath) ->
   add_time_bucket w c k fpath tag = (w', c', o) -> w_ok w' /\ cat_ok c'.
 Proof.
-  intros Hw Hc Hk Hf. unfold add_time_bucket.
+  intros Hw Hc Hf0. unfold add_time_bucket.
   destruct (key_cat_key k) as [ck|]; [|intros E; inversion E; subst; auto].
+  destruct (forallb item_ok (key_items k)) eqn:Hv; cbn [negb]; [|intros E; inversion E; subst; auto].
+  pose proof (items_ok_depth _ Hv 0%nat) as Hk. pose proof (Hf0 eq_refl) as Hf. clear Hf0.
   destruct Hc as [Hc1 Hc2].
   destruct (mkdir_chain w (cn_path (croot c)) (key_items k) (split_on slash ck) 0) as [w1 o1] eqn:MC.
   destruct (mkdir_chain_ok _ _ _ _ _ _ _ _ Hw Hc2 (split_on_nosep slash _) Hk MC) as [Hw1 Hdn].
@@ -655,17 +664,14 @@ Proof.
 Qed.
 
 Lemma fe_create_ok w c key tfok year tag w' c' o :
-  w_ok w -> cat_ok c -> key_guard key = true ->
+  w_ok w -> cat_ok c ->
   fe_create w c root key tfok year tag = (w', c', o) -> w_ok w' /\ cat_ok c'.
 Proof.
-  intros Hw Hc Hg. unfold fe_create.
+  intros Hw Hc. unfold fe_create.
   destruct (split_on colon key) as [|i [|ck [|x l]]] eqn:S; try solve [intros E; inversion E; subst; auto].
-  assert (Hi : key_item_key (new_tbk i ck) = i).
-  { apply hd_split_new_tbk. pose proof (hd_split_nocolon key) as K. rewrite S in K. exact K. }
-  assert (Hk : depth_ok (key_items (new_tbk i ck)) 0 = true).
-  { unfold key_items. rewrite Hi. unfold key_guard, key_items, key_item_key in Hg. rewrite S in Hg. exact Hg. }
   destruct (get_timeframe (new_tbk i ck) tfok); try solve [intros E; inversion E; subst; auto].
-  apply add_time_bucket_ok; auto. apply tbi_path_inroot; auto. apply inrootd_root.
+  apply add_time_bucket_ok; auto. intros Hv. apply tbi_path_inroot; [apply inrootd_root|].
+  apply items_ok_depth; auto.
 Qed.
 
 Lemma fe_destroy_ok w c key w' c' o :
@@ -683,12 +689,10 @@ Proof.
 Qed.
 
 Lemma write_csm1_ok w c key tfok years tag w' c' o :
-  w_ok w -> cat_ok c -> key_guard key = true ->
+  w_ok w -> cat_ok c ->
   write_csm1 w c key tfok years tag = (w', c', o) -> w_ok w' /\ cat_ok c'.
 Proof.
-  intros Hw Hc Hg. unfold write_csm1.
-  assert (Hk : depth_ok (key_items (tbk_from_string key)) 0 = true).
-  { rewrite tbk_from_string_items. exact Hg. }
+  intros Hw Hc. unfold write_csm1.
   set (k := tbk_from_string key) in *.
   destruct (get_timeframe k tfok); try solve [intros E; inversion E; subst; auto].
   assert (AL : forall w c (cur : name * Z) (fresh : bool) w' c' (o : out unit), w_ok w -> cat_ok c -> inroot (fst cur) ->
@@ -703,21 +707,27 @@ Proof.
   destruct (latest_tbi c k) as [cur|e|] eqn:L.
   - apply (AL w c cur false); auto. eapply latest_tbi_inroot; eauto.
   - destruct years as [|y0 ys]; [intros E; inversion E; subst; auto|].
-    assert (Hfp : inroot (tbi_path (cn_path (croot c)) k (wrap I16 y0))).
-    { apply tbi_path_inroot; auto. apply Hc. }
+    assert (Hfp : forallb item_ok (key_items k) = true -> inroot (tbi_path (cn_path (croot c)) k (wrap I16 y0))).
+    { intros Hv. apply tbi_path_inroot; [apply Hc|]. apply items_ok_depth; auto. }
     destruct (add_time_bucket w c k (tbi_path (cn_path (croot c)) k (wrap I16 y0)) tag) as [[w1 c1] o1] eqn:AT.
-    destruct (add_time_bucket_ok _ _ _ _ _ _ _ _ Hw Hc Hk Hfp AT) as [Hw1 Hc1].
+    destruct (add_time_bucket_ok _ _ _ _ _ _ _ _ Hw Hc Hfp AT) as [Hw1 Hc1].
+    (* the new file's path is used only when AddTimeBucket accepted the key or found the file: both imply valid items *)
+    assert (Hv : forall u, o1 = Done u \/ o1 = Fail EExists -> forallb item_ok (key_items k) = true).
+    { intros u Ho. unfold add_time_bucket in AT. destruct (key_cat_key k); [|destruct Ho as [Ho|Ho]; rewrite Ho in AT; inversion AT].
+      destruct (forallb item_ok (key_items k)); auto. cbn in AT. destruct Ho as [Ho|Ho]; rewrite Ho in AT; inversion AT. }
     destruct o1 as [u|e1|]; try solve [intros E; inversion E; subst; auto].
     + apply (AL w1 c1 (tbi_path (cn_path (croot c)) k (wrap I16 y0), wrap I16 y0) true); auto.
+      apply Hfp. apply (Hv u). left. reflexivity.
     + destruct e1; try solve [intros E; inversion E; subst; auto].
       apply (AL w1 c1 (tbi_path (cn_path (croot c)) k (wrap I16 y0), wrap I16 y0) true); auto.
+      apply Hfp. apply (Hv tt). right. reflexivity.
   - intros E; inversion E; subst; auto.
 Qed.
 
 Lemma step_ok w c o w' c' code :
-  w_ok w -> cat_ok c -> op_guard o = true -> step root (w, c) o = (w', c', code) -> w_ok w' /\ cat_ok c'.
+  w_ok w -> cat_ok c -> step root (w, c) o = (w', c', code) -> w_ok w' /\ cat_ok c'.
 Proof.
-  intros Hw Hc Hg. unfold step. destruct o as [k tf y tag|k tf ys tag|k|k|]; cbn in Hg.
+  intros Hw Hc. unfold step. destruct o as [k tf y tag|k tf ys tag|k|k|].
   - destruct (fe_create w c root k tf y tag) as [[w1 c1] r] eqn:E. intros K. inversion K; subst.
     eapply fe_create_ok; eauto.
   - destruct (write_csm1 w c k tf ys tag) as [[w1 c1] r] eqn:E. intros K. inversion K; subst.
@@ -747,25 +757,23 @@ Proof.
 Qed.
 
 Lemma run_fold_ok ops : forall w c codes w' c' codes',
-  w_ok w -> cat_ok c -> forallb op_guard ops = true ->
+  w_ok w -> cat_ok c ->
   fold_left (fun '(w, c, codes) o => let '(w', c', k) := step root (w, c) o in (w', c', codes ++ [k]))
             ops (w, c, codes) = (w', c', codes') ->
   w_ok w' /\ cat_ok c'.
 Proof.
-  induction ops as [|o r IH]; intros w c codes w' c' codes' Hw Hc Hg; cbn [fold_left].
+  induction ops as [|o r IH]; intros w c codes w' c' codes' Hw Hc; cbn [fold_left].
   - intros E; inversion E; subst; auto.
-  - cbn in Hg. apply andb_true_iff in Hg as [Hg1 Hg2].
-    destruct (step root (w, c) o) as [[w1 c1] k] eqn:S.
-    destruct (step_ok _ _ _ _ _ _ Hw Hc Hg1 S). apply IH; auto.
+  - destruct (step root (w, c) o) as [[w1 c1] k] eqn:S.
+    destruct (step_ok _ _ _ _ _ _ Hw Hc S). apply IH; auto.
 Qed.
 
 Theorem run_confined ops :
-  forallb op_guard ops = true ->
   let '(w, _, _) := run root ops in forallb (fun s => within root (sys_path s)) (wtr w) = true.
 Proof.
-  intros Hg. unfold run.
+  unfold run.
   destruct (fold_left _ ops (init_world root, init_cat root, [])) as [[w c] codes] eqn:E.
-  destruct (run_fold_ok _ _ _ _ _ _ _ init_world_ok init_cat_ok Hg E) as [[_ Hw] _].
+  destruct (run_fold_ok _ _ _ _ _ _ _ init_world_ok init_cat_ok E) as [[_ Hw] _].
   apply forallb_forall. rewrite Forall_forall in Hw. exact Hw.
 Qed.
 
